@@ -71,18 +71,57 @@ func (i *Identifier) SQL() string {
 }
 
 // safeIdentifier returns the identifier unchanged if it contains only safe
-// characters (letters, digits, underscores, dots, *). Otherwise it double-
-// quotes it with proper escaping to prevent SQL identifier injection.
+// characters (letters, digits, underscores, dots, *) and is not a reserved word.
+// Otherwise it double-quotes it with proper escaping, so that the tokenizer reads
+// it back as an identifier with the same name, and to prevent SQL identifier injection.
 func safeIdentifier(name string) string {
 	if name == "" {
 		return `""`
 	}
 	for _, r := range name {
 		if r != '_' && r != '*' && r != '.' && !unicode.IsLetter(r) && !unicode.IsDigit(r) {
-			return `"` + strings.ReplaceAll(name, `"`, `""`) + `"`
+			return quoteIdentifier(name)
 		}
 	}
+	if reservedWords[strings.ToUpper(name)] {
+		return quoteIdentifier(name)
+	}
 	return name
+}
+
+func quoteIdentifier(name string) string {
+	return `"` + strings.ReplaceAll(name, `"`, `""`) + `"`
+}
+
+// reservedWords are the words the tokenizer and the token converter hand to the parser as keyword
+// tokens (any letter case). As a column, table or alias name they have to be quoted.
+var reservedWords = map[string]bool{
+	"ADD": true, "ALL": true, "ALTER": true, "AND": true, "ANY": true, "ARRAY": true, "AS": true,
+	"ASC": true, "AUTOINCREMENT": true, "AUTO_INCREMENT": true, "BETWEEN": true, "BY": true,
+	"CASCADE": true, "CASE": true, "CAST": true, "CHECK": true, "COLLATE": true, "COLUMN": true,
+	"CONCURRENTLY": true, "CONNECTOR": true, "CONSTRAINT": true, "CREATE": true, "CROSS": true,
+	"CUBE": true, "CURRENT": true, "DATABASES": true, "DCPROPERTIES": true, "DEFAULT": true,
+	"DELETE": true, "DESC": true, "DESCRIBE": true, "DISTINCT": true, "DROP": true, "ELSE": true,
+	"END": true, "EXCEPT": true, "EXCLUDE": true, "EXISTS": true, "EXPLAIN": true, "FALSE": true,
+	"FETCH": true, "FILTER": true, "FIRST": true, "FOLLOWING": true, "FOR": true, "FOREIGN": true,
+	"FROM": true, "FULL": true, "GROUP": true, "GROUPING": true, "GROUPS": true, "HASH": true,
+	"HAVING": true, "IF": true, "ILIKE": true, "IN": true, "INDEX": true, "INNER": true,
+	"INSERT": true, "INTERSECT": true, "INTERVAL": true, "INTO": true, "IS": true, "JOIN": true,
+	"KEY": true, "LAST": true, "LATERAL": true, "LEFT": true, "LESS": true, "LIKE": true,
+	"LIMIT": true, "LIST": true, "LOCKED": true, "MATCHED": true, "MATERIALIZED": true,
+	"MAXVALUE": true, "MEMBER": true, "MERGE": true, "NATURAL": true, "NEXT": true,
+	"NOCREATEDB": true, "NOCREATEROLE": true, "NOLOGIN": true, "NOSUPERUSER": true, "NOT": true,
+	"NOWAIT": true, "NULL": true, "NULLS": true, "OF": true, "OFFSET": true, "ON": true, "ONLY": true,
+	"OR": true, "ORDER": true, "OUTER": true, "OVER": true, "OWNER": true, "PARTITION": true,
+	"PERCENT": true, "POLICY": true, "PRECEDING": true, "PRIMARY": true, "RANGE": true,
+	"RECURSIVE": true, "REFERENCES": true, "REFRESH": true, "RENAME": true, "REPLACE": true,
+	"RESET": true, "RESTRICT": true, "RETURNING": true, "RIGHT": true, "ROLLUP": true, "ROW": true,
+	"ROWS": true, "SELECT": true, "SET": true, "SETS": true, "SHARE": true, "SHOW": true,
+	"SKIP": true, "SOME": true, "SOURCE": true, "TABLE": true, "TABLES": true, "TABLESPACE": true,
+	"TARGET": true, "TEMPORARY": true, "THAN": true, "THEN": true, "TIES": true, "TO": true,
+	"TRUE": true, "TRUNCATE": true, "UNBOUNDED": true, "UNION": true, "UNIQUE": true, "UNTIL": true,
+	"UPDATE": true, "URL": true, "USING": true, "VALID": true, "VALUES": true, "VIEW": true,
+	"WHEN": true, "WHERE": true, "WITH": true, "WITHIN": true,
 }
 
 // escapeStringLiteral escapes a string for safe inclusion in a single-quoted
